@@ -328,7 +328,7 @@ def handler_exc_class(name):
     return getattr(__import__('builtins'), name)
 
 
-def c18_server(path, ready_path=None):
+def c18_server(path, ready_path=None, tcp_port=None, backlog=None):
     """Socket server process.  Routes:
     /tagged  data = (tag, latency_s, fail, payload) -> (tag, digest(payload)) after the latency, or <exception class named by fail>(tag)
     /raw     data = payload -> digest(payload)
@@ -363,7 +363,11 @@ def c18_server(path, ready_path=None):
     app.add_route('/raw', raw)
     app.add_route('/echo', echo)
     app.add_route('/noarg', noarg)
-    server = make_server(app, path=path)
+    kw = {'backlog': backlog} if backlog else {}
+    if tcp_port:
+        server = make_server(app, host='127.0.0.1', port=tcp_port, **kw)  # the TCP transport instead of the unix socket
+    else:
+        server = make_server(app, path=path, **kw)
     asyncio.run(server.serve())
 
 
